@@ -514,6 +514,20 @@ func (s *Server) handleNewConnection(ctx context.Context, rwc io.ReadWriteCloser
 	verifhook.Event("conn.registered", s, c.ID, 0)
 	defer c.Disconnect()
 
+	// A change made to the account by another user between the look-up above and the registration has not reached
+	// this connection - such changes are applied to registered connections only - so look again now that it is
+	// registered.
+	account := c.Server.AccountManager.Get(login)
+	if account == nil {
+		return nil
+	}
+	c.Account = account
+	if c.Authorize(AccessDisconUser) {
+		c.Flags.Set(UserFlagAdmin, 1)
+	} else {
+		c.Flags.Set(UserFlagAdmin, 0)
+	}
+
 	verifhook.Event("login.ok", s, c.ID, 0)
 
 	s.outbox <- c.NewReply(&clientLogin,
